@@ -14,12 +14,17 @@ SPELL = {
     "tagq": "<block name=\"", "dq": "\"", "sq": "'", "lt": "<", "gt": ">", "eq": "=", "x": "x", "nl": "\n", "cr": "\r",
     "mb2": "é", "nbsp": " ", "emoji": "😀", "comb": "é", "slash": "/", "hash": "#", "crnl": "\r\n", "bslash": "\\",
     "tab": "\t", "xopen": "<!--", "xclose": "-->", "dashes": "--", "xopen_short": "<!-", "xclose_short": "->", "sp": " ",
+    # continuation lines of a block comment whose decorative '*' is indented by multi-byte white space
+    "nbcont": "\n\u00a0* x\n", "mbcont": "\n\u3000*\n",
     "mdlink": "[//]:", "lpar": "(", "rpar": ")", "li": "- ", "quote": "> ", "colon": ":",
     # diff lines
     "src": "--- a/f.py\n", "tgt": "+++ b/f.py\n", "hunk1": "@@ -1 +1 @@\n", "hunkdel": "@@ -1,2 +0,0 @@\n", "hunkadd": "@@ -0,0 +1,2 @@\n",
     "minus": "-old\n", "plus": "+# <block name=\"a\">\n", "minus_mb": "-# Превет é😀\n", "plus_mb": "+# Привет è😁\n", "ctx": " ctx\n", "nonl": "\\ No newline at end of file\n",
     "bodysrc": "--- x\n", "bodytgt": "+++ y\n", "git": "diff --git a/f.py b/f.py\n", "empty": "\n", "badhunk": "@@ -x +y @@\n",
     "tgtnull": "+++ /dev/null\n",
+    # a -/+ pair with identical text (only the line terminator changed), with and without git's marker line
+    "samepair": "-# <block name=\"a\">\n+# <block name=\"a\">\n",
+    "samepair_nonl": "-# <block name=\"a\">\n\\ No newline at end of file\n+# <block name=\"a\">\n",
 }
 FAMILY_EXTS = {
     "c": langs.C_EXTS + ["css", "phtml", "go.mod", "go.work", "go.sum"],
